@@ -29,7 +29,7 @@ claim("C06",
   "as C04; 'within float rounding' for inexact splits is not decided (stated in evidence)", "DESIGN.md section 5 C06")
 claim("C07",
   "Kani: is_ended contract + stability under advance; TimeScale duration/terminal lemmas; MergedTimeline::duration = max",
-  "is_ended <=> (no timeline || as_secs_f32(time) >= duration()), never under an infinite duration, stable under further advances (monotone time); merged duration = max of components (infinite absorbing); the reported total duration agrees with the terminal test (delay+span exact) and the terminal position is constant.",
+  "is_ended <=> (no timeline || as_secs_f32(time) >= duration()), never under an infinite duration, stable under further advances (monotone time); merged duration = max of components (infinite absorbing); the reported total duration agrees with the behaviour for every configuration (from t >= duration() on, every position the TimeScale contract allows is the terminal one - proved without an exactness side condition since the fix of the end-instant defect) and the terminal position is constant.",
   "as C04 + A1", "DESIGN.md section 5 C07")
 claim("C08",
   "Verus: from_keyframes/value_at postconditions (no defining keyframe => empty => None); Kani: prepare_frame None iff no keyframes, animator/merged frame clauses",
